@@ -1,3 +1,6 @@
 #!/bin/sh
 # Runs /repo's pinned suite with the verif guard OFF (the BASELINE.json command, text output).
-cd /repo && GOFLAGS=-mod=mod GOPROXY=off go test -vet=off -count=1 -timeout 25m ./... 2>&1 | grep -v "no test files"
+# Exit status 0 only if every package passes.
+cd /repo && out=$(GOFLAGS=-mod=mod GOPROXY=off go test -vet=off -count=1 -timeout 25m ./... 2>&1); rc=$?
+echo "$out" | grep -v "no test files"
+exit $rc
